@@ -11,7 +11,14 @@ all cells of one constraint set run in ONE session (same model object), so repea
   * the model's fit step run inside Coq on the implementation's own optimiser answer x* (captured from
     scipy.optimize.minimize / Minuit) is compared with the implementation's final value of EVERY variable
     (Coq-Interval goals; bound transforms, ties, polar standardisation included).
-The failing (method x constraint-set) cell is the failing input."""
+The failing (method x constraint-set) cell is the failing input.
+
+Since the independent hunt (2026-10-01): the bounds of a cell are the DECLARED ones (the configuration's own numbers), compared
+with config.bound_dic (post-condition bounds_registered) and handed to the Coq model, whose fit_cfg moves every entry to the
+listed name of its tie (norm_bounds = fit.py _trainable_bounds); the result must list EVERY parameter (result_lists_all);
+constraint sets cp (CP-violating factors, negative radius), bounds2 (params.mass_range on a `float: m` mass, params.*_free
+floats, a bound on the non-listed member of a tie), free without fix_chain_val (fixed total random per model build); one BFGS
+fit per run is stopped by the library's own LargeNumberError guard (model fit_except_cfg)."""
 import json
 import math
 import os
@@ -29,7 +36,7 @@ TECHNIQUE = ("Coq proof about a state-machine model of the fit bookkeeping with 
 HEADER = ("From Coq Require Import Reals List ZArith Bool Arith.\nFrom Interval Require Import Tactic.\n"
           "From TFV Require Import Base.RBase Base.Tie State.Fit.\nImport ListNotations.\nOpen Scope R_scope.\n")
 UNF = ("bt read write lookup inb mem set_bound remove_bound set_all trans_vals set_trans_var std_skip std_one standard_complex wrap1 wrap_phase "
-       "get_params get_params_train fit fit_bfgs fit_lbfgsb fit_newton fit_minuit cellof store allnames train bnd polar r_params r_min "
+       "get_params get_params_train fit fit_cfg fit_except fit_except_cfg head_of lo_isect hi_isect norm_step norm_bounds fit_bfgs fit_lbfgsb fit_newton fit_minuit cellof store allnames train bnd polar r_params r_min "
        "fst snd map combine nth fold_left app Nat.eqb orb negb")
 TAC = "cbv [%s]; rclose" % UNF
 
@@ -43,7 +50,10 @@ SITE = {"M_bfgs": "tf_pwa/fit.py fit_scipy BFGS/CG", "M_lbfgsb": "tf_pwa/fit.py 
 R2r = "A->R_BD.CR_BD->B.D_total_0r"; R2i = "A->R_BD.CR_BD->B.D_total_0i"
 R3r = "A->R_CD.BR_CD->C.D_total_0r"; R3i = "A->R_CD.BR_CD->C.D_total_0i"
 
-CSETS = ["free", "fixed", "tied", "tied_neg", "tied_phase_neg", "bounds", "bound0", "gauss"]
+CSETS = ["free", "fixed", "tied", "tied_neg", "tied_phase_neg", "bounds", "bound0", "gauss", "cp", "bounds2"]
+R2dr = R2r[:-1] + "deltar"; R2di = R2r[:-1] + "deltai"; R3dr = R3r[:-1] + "deltar"; R3di = R3r[:-1] + "deltai"
+# the starting value that makes the library's own guard (LargeNumberError, "x too large") stop a BFGS/CG fit after its first iteration
+LARGE = 2.0e7
 
 
 def branch_of(method):
@@ -61,6 +71,12 @@ def config_dict(cset):
     constr = {"decay": {"fix_chain_idx": 0, "fix_chain_val": 1.0}}
     truth = {R2r: 0.8, R2i: 0.7, R3r: 0.6, R3i: -1.1}
     start = None
+    extra = {}
+    declared = {}   # the bounds this configuration DECLARES, name -> [lower, upper] (what the fit has to respect)
+    if cset == "free":
+        # no fix_chain_val: the fixed chain total is drawn at random by every model build, so the freshly built model of the
+        # save -> load post-condition differs from the fitted one in a FIXED value unless the file carries it
+        constr = {"decay": {"fix_chain_idx": 0}}
     if cset == "fixed":
         # a fixed NEGATIVE radius and a fixed phase: standard_complex must leave both alone
         constr["fix_var"] = {R3r: -0.6, R2i: 0.7}
@@ -81,6 +97,7 @@ def config_dict(cset):
     elif cset == "bound0":
         # one-sided range whose finite end is exactly 0, and ACTIVE: the data are generated with the phase at +1.1, the range is (-inf, 0]
         constr["var_range"] = {R3i: [None, 0]}
+        declared = {R3i: [None, 0]}
         truth = {R2r: 0.8, R2i: 0.7, R3r: 0.9, R3i: 1.1}
         start = dict(truth); start[R3i] = -0.3
     elif cset == "bounds":
@@ -92,15 +109,36 @@ def config_dict(cset):
         # (0.075) that differs from the configured one (0.06), so a reload that drops the fitted width is visible
         part["R_CD"].update({"float": "g", "width_min": 0.01, "width_max": 0.3})
         constr["var_range"] = {R3r: [-2.0, -0.1]}
+        declared = {"R_BC_mass": [0.4, 0.6], "R_BC_width": [0.01, None], "R_BD_mass": [None, 0.58], "R_CD_width": [0.01, 0.3], R3r: [-2.0, -0.1]}
         truth = {R2r: 0.8, R2i: 0.7, R3r: -0.6, R3i: -1.1 + math.pi, "R_BC_mass": 0.5, "R_BC_width": 0.05, "R_BD_mass": 0.6, "R_CD_width": 0.075}
         start = dict(truth, R_BD_mass=0.57)
     elif cset == "gauss":
         part["R_BC"].update({"float": "m", "gauss_constr": {"m": 0.01}})
         truth = dict(truth, R_BC_mass=0.5)
+    elif cset == "cp":
+        # CP-violating chain factors (r + c dr) e^{i (phi + c dphi)} (config.sample.yml: decay_chain: {$all: {is_cp: True}});
+        # one radius NEGATIVE: (r, phi) -> (|r|, phi + pi) with dr unchanged is ANOTHER amplitude
+        extra = {"decay_chain": {"$all": {"is_cp": True}}}
+        truth = {R2r: -0.8, R2i: 0.7, R2dr: 0.3, R2di: 0.2, R3r: 0.6, R3i: -1.1, R3dr: -0.2, R3di: 0.1}
+    elif cset == "bounds2":
+        # the other ways of declaring the same constraints:
+        #  - a range given as params: {mass_range: [a, b]} on a mass floated by `float: m` (ACTIVE: generated at 0.5, range [0.4, 0.48])
+        part["R_BC"].update({"float": "m", "params": {"mass_range": [0.4, 0.48]}})
+        #  - a mass and a width floated by params: {mass_free: True, width_free: True} (no `float` key), generated away from the
+        #    configured values, so a reload that drops the fitted value is visible
+        part["R_BD"].update({"params": {"mass_free": True, "width_free": True}})
+        #  - a bound declared on a NON-HEAD member of a tie (R_CD_width, tied to R_BD_width which is listed first), ACTIVE:
+        #    the 60 events prefer a shared width near 0.04, the range is [0.055, 0.3]
+        part["R_CD"].update({"float": "g", "width_min": 0.055, "width_max": 0.3})
+        constr["var_equal"] = [["R_BD_width", "R_CD_width"]]
+        declared = {"R_BC_mass": [0.4, 0.48], "R_CD_width": [0.055, 0.3]}
+        truth = dict(truth, R_BC_mass=0.5, R_BD_mass=0.62, R_BD_width=0.075)
+        start = dict(truth, R_BC_mass=0.47, R_BD_width=0.065)
     d = {"data": {"dat_order": ["B", "C", "D"]},
          "decay": {"A": [["R_BC", "D"], ["R_BD", "C"], ["R_CD", "B"]], "R_BC": ["B", "C"], "R_BD": ["B", "D"], "R_CD": ["C", "D"]},
          "particle": part, "constrains": constr}
-    return d, truth, (start or truth)
+    d.update(extra)
+    return d, truth, (start or truth), declared
 
 
 # =========================================================================== worker (runs the implementation)
@@ -125,7 +163,7 @@ def worker_main(infile, outfile):
         return contextlib.redirect_stdout(io.StringIO())
 
     cset = spec["cset"]
-    cdict, truth, start0 = config_dict(cset)
+    cdict, truth, start0, declared = config_dict(cset)
     with quiet():
         config = ConfigLoader(json.loads(json.dumps(cdict)))
         config.get_amplitude()
@@ -164,6 +202,14 @@ def worker_main(infile, outfile):
         cap["minuit"] = self
         return r
     iminuit.Minuit.migrad = wrap_migrad
+    # the last point the objective was evaluated at (the LargeNumberError early return leaves the model there)
+    orig_fun = tfit.Cached_FG.fun
+
+    def wrap_fun(self, x):
+        f = orig_fun(self, x)
+        cap["last_x"] = [float(t) for t in x]; cap["last_f"] = float(f)
+        return f
+    tfit.Cached_FG.fun = wrap_fun
 
     rs = random.Random(spec["seed"] * 7919 + 5)
     names = list(vm.variables)
@@ -177,17 +223,25 @@ def worker_main(infile, outfile):
             continue
         if any((k + "r" in grp) or (k + "i" in grp) for grp in vm.same_list):
             continue
+        if k + "deltar" in names:
+            continue   # CP factors are left alone (flipping r alone changes the amplitude)
         if k + "r" in names and k + "i" in names:
             polar.append([names.index(k + "r"), names.index(k + "i")])
-    bd_all = {k: [None if t is None else float(t) for t in v] for k, v in config.bound_dic.items()}
+    # the bounds are the DECLARED ones (not read back from config.bound_dic, which is checked against them below)
+    bd_all = {k: [None if t is None else float(t) for t in v] for k, v in declared.items()}
+    bd_impl = {k: [None if t is None else float(t) for t in v] for k, v in config.bound_dic.items()}
     gauss = {k: [float(t) for t in v] for k, v in config.gauss_constr_dic.items()}
-    out = {"cset": cset, "names": names, "cellof": cellof, "polar": polar, "bounds": bd_all, "gauss": gauss,
+    out = {"cset": cset, "names": names, "cellof": cellof, "polar": polar, "bounds": bd_all, "bound_dic": bd_impl, "gauss": gauss,
            "same_list": [list(g) for g in vm.same_list], "cells": []}
     tdir = spec["tmpdir"]
-    for ci, (method, maxiter) in enumerate(spec["cells"]):
-        rec = {"method": method, "maxiter": maxiter, "cset": cset, "post": {}, "detail": {}}
+    for ci, cellspec in enumerate(spec["cells"]):
+        method, maxiter = cellspec[0], cellspec[1]
+        kind = cellspec[2] if len(cellspec) > 2 else "regular"
+        rec = {"method": method, "maxiter": maxiter, "cset": cset, "kind": kind, "post": {}, "detail": {}}
         t0 = time.time()
-        start = {k: v * (rs.uniform(0.99, 1.01) if k in bd_all else rs.uniform(0.95, 1.05)) for k, v in start0.items() if k in vm.trainable_vars}
+        start = {k: v * (rs.uniform(0.99, 1.01) if (k in bd_all or k in bd_impl) else rs.uniform(0.95, 1.05)) for k, v in start0.items() if k in vm.trainable_vars}
+        if kind == "large":
+            start[R2r] = LARGE
         with quiet():
             config.set_params(start)
         rec["start"] = start
@@ -215,7 +269,11 @@ def worker_main(infile, outfile):
         rec["result_params"] = {k: float(v) for k, v in res.params.items()}
         rec["min_nll"] = float(res.min_nll); rec["success"] = bool(res.success)
         rec["bnd_after"] = {k: [b.lower, b.upper] for k, b in vm.bnd_dic.items()}
-        if method == "iminuit":
+        if kind == "large":
+            # stopped by the library's guard: the returned point is the last evaluated one
+            rec["guard_fired"] = (not res.success) and "x" not in cap
+            rec["xstar"] = cap.get("last_x"); rec["fstar"] = cap.get("last_f")
+        elif method == "iminuit":
             m = cap.get("minuit")
             rec["xstar"] = [float(t) for t in m.values] if m is not None else None
             rec["fstar"] = float(m.fval) if m is not None else None
@@ -226,6 +284,10 @@ def worker_main(infile, outfile):
         bad = {k: (after.get(k), v) for k, v in rec["result_params"].items() if after.get(k) != v}
         post["state_is_result"] = not bad and len(rec["result_params"]) > 0
         det["state_is_result"] = {k: list(v) for k, v in list(bad.items())[:4]}
+        # P1b the result lists EVERY parameter of the model (a file written from it must carry the fixed values too)
+        missing = [k for k in names if k not in rec["result_params"]]
+        post["result_lists_all"] = not missing
+        det["result_lists_all"] = {"absent_from_result": missing[:6], "n_absent": len(missing)}
         # P2 reported minimum = NLL at those values (evaluating sets them: the state must not move either)
         with quiet():
             nll_at = float(fcn_ref(res.params))
@@ -254,8 +316,14 @@ def worker_main(infile, outfile):
             if k in after and ((lo is not None and after[k] < lo - 1e-12) or (hi is not None and after[k] > hi + 1e-12)):
                 badb[k] = {"value": after[k], "bound": [lo, hi]}
         post["inside_bounds"] = not badb; det["inside_bounds"] = badb
+        # P6b every declared bound is in the dictionary ConfigLoader.fit hands to the minimiser
+        badr = {k: {"declared": v, "config.bound_dic": bd_impl.get(k)} for k, v in bd_all.items() if bd_impl.get(k) != v}
+        post["bounds_registered"] = not badr; det["bounds_registered"] = badr
         # P7 bookkeeping clean for the next fit
         post["bnd_dic_empty"] = len(rec["bnd_after"]) == 0; det["bnd_dic_empty"] = rec["bnd_after"]
+        if rec["bnd_after"]:
+            with quiet():
+                vm.remove_bound()   # reported above; the other cells of the session are judged on their own
         # P8 save -> fresh model -> load
         try:
             path = os.path.join(tdir, "fit_%s_%d_%d.json" % (cset, spec["seed"], ci))
@@ -323,7 +391,10 @@ def model_goals(ctx, out, rec, cid):
     s0, idx = state_term(out, rec, extra)
     bd = "[" + "; ".join("(%d%%nat, %s)" % (idx[k], bound_term(v)) for k, v in out["bounds"].items()) + "]"
     opt = "(fun _ => ([%s], %s))" % ("; ".join(Rq(x) for x in rec["xstar"]), Rq(rec["fstar"]))
-    term = "(fit %s %s %s %s)" % (branch_of(rec["method"]), opt, bd, s0)
+    if rec.get("kind") == "large":
+        term = "(fit_except_cfg %s %s %s)" % (opt, bd, s0)      # stopped by the library's guard: except_result
+    else:
+        term = "(fit_cfg %s %s %s %s)" % (branch_of(rec["method"]), opt, bd, s0)
     atoms, single = [], []
     for i, nm in enumerate(out["names"]):
         y = rec["after"][i]
@@ -340,7 +411,7 @@ def model_goals(ctx, out, rec, cid):
     return whole, single
 
 
-POST_FP = {"state_is_result": "state!=result", "min_is_nll": "min!=nll(state)", "not_above_start": "min>start",
+POST_FP = {"bounds_registered": "bound-not-registered", "result_lists_all": "result-misses-names", "state_is_result": "state!=result", "min_is_nll": "min!=nll(state)", "not_above_start": "min>start",
            "fixed_unchanged": "fixed-changed", "tied_equal": "tied-differ", "inside_bounds": "out-of-bounds",
            "bnd_dic_empty": "bnd_dic-left", "save_load": "save-load", "save_params_load": "save-load"}
 
@@ -349,7 +420,8 @@ def run(ctx):
     import common
     rnd = random.Random(ctx.seed * 1000003 + 8)
     quick = ctx.tier == "quick"
-    ctx.rule = ("cells = minimiser name x constraint set {free, fixed (negative fixed radius + fixed phase), tied (var_equal), bounds "
+    ctx.rule = ("cells = minimiser name x constraint set {free (fixed chain total drawn at random per model build), cp (CP-violating factors with a negative radius), "
+                "bounds2 (range as params.mass_range on a `float: m` mass, mass/width floated by params.*_free, bound on the non-listed member of a tie), fixed (negative fixed radius + fixed phase), tied (var_equal), bounds "
                 "(two-sided, lower, upper, negative-range radius), tied with a negative shared radius, a one-sided range ending at 0 (active), gauss} x {converged, maxiter=2}; all cells of a constraint set run in one "
                 "session; 60 data / 300 phase-space events, 3 spin-0 chains; start = truth x U(0.95,1.05); distinct = distinct cells; "
                 "non-trivial = the optimiser moved the point (x* differs from the start)")
@@ -362,6 +434,10 @@ def run(ctx):
             ms = list(methods)
             rnd.shuffle(ms)
             cells = [[m, mi] for m in ms for mi in ([None, 2] if rnd.random() < 0.5 else [2, None])]
+            if cset == "bounds":
+                # one fit of the session is stopped by the library's own guard (LargeNumberError -> except_result): a BFGS fit
+                # started at a radius of 2e7, somewhere in the middle of the session (other fits follow it)
+                cells.insert(rnd.randrange(1, len(cells) - 1), ["BFGS", None, "large"])
             tag = "%s_%d" % (cset, sd)
             inf = os.path.join(ctx.dir, "job_%s.json" % tag); outf = os.path.join(ctx.dir, "out_%s.json" % tag)
             json.dump({"cset": cset, "seed": sd, "ndata": 60, "nphsp": 300, "cells": cells, "tmpdir": ctx.dir}, open(inf, "w"))
@@ -391,12 +467,18 @@ def run(ctx):
             ncell += 1
             method, cset = rec["method"], rec["cset"]
             br = branch_of(method)
+            large = rec.get("kind") == "large"
             cell = {"method": method, "constraint_set": cset, "maxiter": rec["maxiter"], "session_position": k, "seed": tag.split("_")[-1],
                     "bounds": out["bounds"], "start": rec.get("start")}
-            cid = "%s_%02d_%s_%s" % (tag, k, method.replace("-", ""), "it2" if rec["maxiter"] else "conv")
-            ctx.count("cell:%s:%s:%s" % (method, cset, "maxiter=2" if rec["maxiter"] else "converged"))
+            if large:
+                cell["kind"] = "large"
+            cid = "%s_%02d_%s_%s" % (tag, k, method.replace("-", ""), "guard" if large else "it2" if rec["maxiter"] else "conv")
+            ctx.count("cell:%s:%s:%s" % (method, cset, "stopped by LargeNumberError" if large else "maxiter=2" if rec["maxiter"] else "converged"))
             ctx.evaluations += 1
-            ctx.distinct.add((method, cset, rec["maxiter"], tag))
+            ctx.distinct.add((method, cset, "large" if large else rec["maxiter"], tag))
+            if large and "exception" not in rec and not rec.get("guard_fired"):
+                ctx.fail("harness", cid, "the far-away start did not trigger the library's LargeNumberError guard: the early-return path was not exercised",
+                         inp=cell, site="harness", fingerprint="guard-not-fired", failing_input=cell)
             if "exception" in rec:
                 ctx.fail("fit", cid, "ConfigLoader.fit raised %s\n%s" % (rec["exception"], rec.get("traceback", "")[-600:]), inp=cell, site=SITE[br],
                          fingerprint="raise", failing_input=dict(cell, exception=rec["exception"]))
@@ -409,7 +491,7 @@ def run(ctx):
                     ctx.discharged += 1
                 else:
                     ctx.fail("postcondition", cid + ":" + key, "post-condition '%s' fails on the implementation: %s" % (key, json.dumps(rec["detail"].get(key), default=str)[:700]),
-                             inp=cell, site=SITE[br] if key not in ("save_load", "save_params_load") else "tf_pwa/fit.py FitResult.save_as / ConfigLoader.set_params",
+                             inp=cell, site=("tf_pwa/config_loader/config_loader.py add_particle_constraints" if key == "bounds_registered" else SITE[br] if key not in ("save_load", "save_params_load") else "tf_pwa/fit.py FitResult.save_as / ConfigLoader.set_params"),
                              fingerprint=POST_FP[key], failing_input=dict(cell, violated=key, observed=rec["detail"].get(key)))
             if rec.get("xstar") is None:
                 ctx.fail("capture", cid, "optimiser answer not captured", inp=cell, site="harness", fingerprint="capture", failing_input=cell)
@@ -444,7 +526,9 @@ def run(ctx):
         "JSON float round trip (json.dump/yaml.safe_load) is trusted Python; checked by the save/load post-condition",
         "tiny samples (60/300 events) and 3 spin-0 chains only: the bookkeeping under test does not depend on the amplitude",
         "method='minuit' (applications.fit dispatch) and 'root' are not in the property's list and are not run; "
-        "the LargeNumberError early return (except_result) is not reached",
+        "the LargeNumberError early return (except_result) is reached once per run (BFGS, constraint set 'bounds')",
+        "options of ConfigLoader.fit that the property does not name (jac != True, check_grad=True, grad_scale != 1, reweight) and the "
+        "MultiConfig front end are not run",
     ])
 
 
@@ -458,7 +542,7 @@ def replay(rep):
     d = tempfile.mkdtemp(prefix="c08_replay_", dir=os.path.join(os.path.dirname(os.path.dirname(HERE)), "build"))
     inf, outf = os.path.join(d, "job.json"), os.path.join(d, "out.json")
     json.dump({"cset": fi["constraint_set"], "seed": int(fi.get("seed", 17)), "ndata": 60, "nphsp": 300,
-               "cells": [[fi["method"], fi.get("maxiter")]], "tmpdir": d}, open(inf, "w"))
+               "cells": [[fi["method"], fi.get("maxiter")] + (["large"] if fi.get("kind") == "large" else [])], "tmpdir": d}, open(inf, "w"))
     r = subprocess.run([sys.executable, "-W", "ignore", os.path.abspath(__file__), "--worker", inf, outf], capture_output=True, text=True, cwd=d)
     if r.returncode != 0 or not os.path.exists(outf):
         print("worker failed:", (r.stdout + r.stderr)[-1500:])
